@@ -370,9 +370,11 @@ package sam
 //@   modifies mapof(r.seenRefs), r.h.refs, mapof(r.h.seenRefs), arrays(*Reference), backing(r.h.refs), objects(Reference)
 //@   ghost got int
 //@   ghost parsed bool
-//@   at stmt "b, err := r.r.ReadBytes('\n')" ghost got = len(ret0)
+//@   ghost rerr error
+//@   at stmt "b, err := r.r.ReadBytes('\n')" ghost got = len(ret0); rerr = ret1
 //@   at stmt "err = rec.UnmarshalSAM(r.h, b)" ghost parsed = true
 //@   at stmt "err = rec.UnmarshalSAM(nil, b)" ghost parsed = true
-//@   ensures[C06] @nodrop got > 0 ==> parsed
+//@   ensures[C06] @nodrop (got > 0 && (rerr == nil || rerr == io.EOF)) ==> parsed
+//@   ensures[C06] @reported (rerr != nil && rerr != io.EOF) ==> (result0 == nil && result1 == rerr)
 //@ func Reference.Name
 //@   inline
